@@ -45,6 +45,7 @@ func boolErrDiscipline(fn *ssa.Function) (ok bool, why string) {
 
 // C32 Batched signature checks agree with individual checks (no-skip clause).
 func c32(r *core.Report, p *core.Prog, thorough bool) {
+	c32FreshPairing(r, p)
 	r.Explain = "Decided (no-skip clause): the aggregate verifier reports failure only with a non-nil error, so callers that look at the error alone cannot accept a failed aggregate; per-transaction signature checks are skipped only when an aggregate scheme exists and then every accepting path aggregates each transaction's own signature over its own hash and passes the aggregate verification; ticket verification aggregates every ticket of a verifier resolved in the round's miner pool and signals success only after the aggregate verified. Not decided: that an aggregate accepts exactly when all individual signatures are valid (pairing algebra)."
 	r.Rule("C32.result", "every AggregateSignatureScheme.Verify implementation returns false only together with a non-nil error; callers test the error")
 	r.Rule("C32.txns", "ValidateTransactions: ValidateWrtTimeForBlock(…, !aggregate); when aggregate, each transaction to verify is aggregated with (its scheme, its signature, its hash) and every accepting exit passes Verify()")
@@ -243,6 +244,7 @@ func c33(r *core.Report, p *core.Prog, thorough bool) {
 		r.Unresolved("C33.admission", "verifyVRFShare")
 		return
 	}
+	c33RestartClears(r, p)
 	n := 0
 	for _, fn := range p.FuncsIn(pkgMiner) {
 		for _, cs := range core.CallsIn(fn, false, func(c *ssa.CallCommon) bool {
@@ -440,4 +442,134 @@ func appendElems(call *ssa.Call) []ssa.Value {
 		}
 	}
 	return out
+}
+
+// c33RestartClears: shares are valid for one (round, timeout count) message only; an
+// accepted Round.Restart — after which the timeout count is incremented — must drop
+// every share collected so far, unconditionally.
+func c33RestartClears(r *core.Report, p *core.Prog) {
+	r.Rule("C33.restart-clears", "every accepting exit of Round.Restart is preceded by a store of a fresh map to Round.shares (directly or in a callee all of whose exits perform it)")
+	restart := p.Func("(*" + pkgRound + ".Round).Restart")
+	sf := p.Field(pkgRound, "Round", "shares")
+	if restart == nil || sf == nil {
+		r.Unresolved("C33.restart-clears", "Round.Restart / Round.shares")
+		return
+	}
+	var resets func(fn *ssa.Function, depth int) map[ssa.Instruction]bool
+	resets = func(fn *ssa.Function, depth int) map[ssa.Instruction]bool {
+		out := map[ssa.Instruction]bool{}
+		if fn == nil || fn.Blocks == nil || depth > 3 {
+			return out
+		}
+		for _, wr := range core.FieldWrites([]*ssa.Function{fn}, sf) {
+			if _, isMk := wr.Val.(*ssa.MakeMap); isMk && wr.Kind == "store" {
+				out[wr.Instr] = true
+			}
+		}
+		for _, b := range fn.Blocks {
+			for _, in := range b.Instrs {
+				c, ok := in.(*ssa.Call)
+				if !ok {
+					continue
+				}
+				cal := core.StaticCallee(c.Common())
+				if cal == nil || cal.Pkg == nil || cal.Pkg.Pkg.Path() != pkgRound || cal == fn {
+					continue
+				}
+				inner := resets(cal, depth+1)
+				if len(inner) == 0 {
+					continue
+				}
+				// the callee must perform the reset on all of its exits
+				all := true
+				for _, ret := range core.Returns(cal) {
+					if ret.Block() == cal.Recover {
+						continue
+					}
+					_, _, found := core.PathQuery{Fn: cal, Barrier: func(x ssa.Instruction) bool { return inner[x] }, EdgeOK: core.FeasibleEdge,
+						Target: func(x ssa.Instruction) bool { return x == ssa.Instruction(ret) }}.Find()
+					if found {
+						all = false
+					}
+				}
+				if all {
+					out[c] = true
+				}
+			}
+		}
+		return out
+	}
+	rs := resets(restart, 0)
+	ok := len(rs) > 0
+	why := "no reset of the share map reachable from Restart"
+	if ok {
+		for _, ret := range core.SuccessExits(restart) {
+			if ret.Block() == restart.Recover {
+				continue
+			}
+			path, _, found := core.PathQuery{Fn: restart, Barrier: func(x ssa.Instruction) bool { return rs[x] }, EdgeOK: core.FeasibleEdge,
+				Target: func(x ssa.Instruction) bool { return x == ssa.Instruction(ret) }}.Find()
+			if found {
+				ok = false
+				why = "an accepted restart can keep the old shares: " + p.PathString(path)
+			}
+		}
+	}
+	r.Check(ok, "C33.restart-clears", "Restart:shares-dropped", p.Pos(restart.Pos()), "shares verified for the old timeout count never count toward the threshold of the new one; "+why)
+}
+
+// c32FreshPairing: the aggregate scheme multiplies further pairings *into* the GT that
+// PairMessageHash returned (it becomes a batch accumulator). That is sound only if every
+// call returns a value of its own: the result must be allocated in the call and must not
+// be kept anywhere (a memoised GT would be corrupted by the first aggregate verification).
+func c32FreshPairing(r *core.Report, p *core.Prog) {
+	r.Rule("C32.fresh-pairing", "BLS0ChainScheme.PairMessageHash returns a GT allocated in that call and stores it nowhere else; the aggregate accumulates in place into such values")
+	pm := p.Func("(*0chain.net/core/encryption.BLS0ChainScheme).PairMessageHash")
+	if pm == nil {
+		r.Unresolved("C32.fresh-pairing", "BLS0ChainScheme.PairMessageHash")
+		return
+	}
+	ok := true
+	why := ""
+	n := 0
+	for _, ret := range core.Returns(pm) {
+		v := core.ResultValue(ret, 0)
+		if core.IsNilConst(v) {
+			continue
+		}
+		n++
+		al, isAl := canonObj(v).(*ssa.Alloc)
+		if !isAl {
+			// phi of allocs
+			ok = false
+			why = "the returned GT is " + describe(v) + ", not a value allocated in this call"
+			continue
+		}
+		for _, ref := range *al.Referrers() {
+			switch x := ref.(type) {
+			case *ssa.Store:
+				if x.Val == ssa.Value(al) {
+					if _, local := x.Addr.(*ssa.Alloc); !local {
+						ok = false
+						why = "the returned GT is also stored at " + p.Pos(x.Pos())
+					}
+				}
+			case *ssa.MakeInterface:
+				// boxed and handed to something that may keep it (atomic.Value.Store, sync.Map, …)
+				for _, r2 := range *x.Referrers() {
+					if ci, isCall := r2.(ssa.CallInstruction); isCall {
+						m := core.MethodName(ci.Common())
+						if m == "Store" || m == "LoadOrStore" || m == "Set" || m == "Add" || m == "Put" {
+							ok = false
+							why = "the returned GT is kept by " + m + " at " + p.Pos(ci.Pos())
+						}
+					}
+				}
+			case *ssa.MapUpdate:
+				ok = false
+				why = "the returned GT is put into a map"
+			}
+		}
+	}
+	r.Check(ok && n > 0, "C32.fresh-pairing", "PairMessageHash:fresh-result", p.Pos(pm.Pos()), "each call yields its own GT (the aggregate mutates it in place); "+why)
 }
